@@ -183,3 +183,6 @@ harness!(leaf_tls_versions, unwind = 6, h_tls_versions::<_, 7>);
 harness!(mod_client_hello, unwind = 4,
     stubs = [crate::tls_handshake::parse_cipher_suites => stub_cipher_suites, crate::tls_handshake::parse_compressions_algs => stub_compressions],
     h_client_hello_mod::<_, 48, false>);
+harness!(mod_client_hello_long, unwind = 4,
+    stubs = [crate::tls_handshake::parse_cipher_suites => stub_cipher_suites, crate::tls_handshake::parse_compressions_algs => stub_compressions],
+    h_client_hello_mod::<_, 80, false>);
